@@ -60,6 +60,11 @@ AddF(h) == Kind = "int" /\ h \in Halves /\ Mutate(TruncDiv(2 * val + h, 2))
 SubF(h) == Kind = "int" /\ h \in Halves /\ Mutate(TruncDiv(2 * val - h, 2))
 MulF(h) == Kind = "int" /\ h \in Halves /\ Mutate(TruncDiv(val * h, 2))
 DivF(h) == Kind = "int" /\ h \in Halves /\ h # 0 /\ Mutate(TruncDiv(2 * val, h))
+\* T = double for an integer T: what is compared and stored is the operand converted to T (5 = 5.5 changes nothing)
+AssignF(h) == /\ Kind = "int" /\ h \in Halves /\ InDom(TruncDiv(h, 2))
+              /\ LET nv == TruncDiv(h, 2) IN
+                 IF Eq(val, nv) THEN UNCHANGED val /\ notes' = {} ELSE val' = nv /\ notes' = NotifyAll(nv)
+              /\ ret' = val' /\ UNCHANGED subs
 \* operator=(2^24): an ordinary assignment of a value outside Dom
 AssignBig == /\ Kind = "flt"
              /\ IF Eq(val, Big) THEN UNCHANGED val /\ notes' = {} ELSE val' = Big /\ notes' = NotifyAll(Big)
@@ -93,7 +98,7 @@ Next == \/ \E v \in Values : Assign(v)
         \/ \E d \in Deltas : Add(d) \/ Sub(d)
         \/ \E f \in Factors : Mul(f)
         \/ \E f \in Divisors : Div(f)
-        \/ \E h \in Halves : AddF(h) \/ SubF(h) \/ MulF(h) \/ DivF(h)
+        \/ \E h \in Halves : AddF(h) \/ SubF(h) \/ MulF(h) \/ DivF(h) \/ AssignF(h)
         \/ AssignBig \/ DivZero \/ \E d \in {1, 2} : AddAbsorbed(d)
         \/ \E s \in Strs : Concat(s)
         \/ \E f \in {"id", "inc", "zero"} : Apply(f)
